@@ -176,9 +176,10 @@ func RunBlahut(c *core.Ctx) {
 		return hookStopAt > 0 && calls >= hookStopAt
 	}
 	var res []float64
+	pGiven := append([]float64{}, p0...)
 	pv, site := core.Try(func() {
 		if naive {
-			res = blahut.RunNaive(W, append([]float64{}, p0...), steps, blahut.HookNaive{Value: onHook})
+			res = blahut.RunNaive(W, pGiven, steps, blahut.HookNaive{Value: onHook})
 		} else {
 			flat := []float64{}
 			for i := range W {
@@ -189,6 +190,11 @@ func RunBlahut(c *core.Ctx) {
 			res = floats(r)
 		}
 	})
+	for i := range p0 {
+		if pGiven[i] != p0[i] {
+			c.Fail("x0-unchanged", what+"|start-moved", "%s changed the initial distribution it was given: %v -> %v", what, p0, pGiven)
+		}
+	}
 	c.Nontriv = true
 	c.StateStr(fmt.Sprint(what, n, m, steps, hookStopAt > 0))
 	c.Sample = map[string]interface{}{"routine": what, "inputs": n, "outputs": m, "steps": steps, "capacity_bits": capNats / math.Ln2}
